@@ -72,7 +72,8 @@ def judge(coef, tc, T, y, h, c):
     e = F.effective(coef)
     b0, H, C, bh, bc, kh, kc = e["b0"], e["H"], e["C"], e["bh"], e["bc"], e["kh"], e["kc"]
     scale = float(np.max(np.abs(y))) if len(y) else 1.0
-    scale = max(scale, abs(b0), 1e-12)
+    # magnitudes of the intermediates of the smoothed formula |beta*k|(e^z - 1) + beta(T - bp): rounding errors scale with them
+    scale = max(scale, abs(b0), bh * kh, bc * kc, 1e-12)
     tol = ulp_tol(scale, 8)
     maxslope = max(bh, bc)
     dT = np.diff(T)
@@ -92,7 +93,8 @@ def judge(coef, tc, T, y, h, c):
     hi = C if (C is not None and bc != 0) else np.inf
     if H is None or bh == 0:
         lo = -np.inf
-    between = (T > lo) & (T < hi)
+    eps_T = 1e-9 * np.maximum(1.0, np.abs(T))             # the effective balance points are themselves rounded (they coincide when hdd_k + cdd_k >= 1)
+    between = (T > lo + eps_T) & (T < hi - eps_T)
     single = coef["model_type"] in ("hdd_tidd", "hdd_tidd_smooth", "tidd_cdd", "tidd_cdd_smooth")
     if single or bh == 0 or bc == 0:
         between &= (T >= tc["T_min"]) & (T <= tc["T_max"])      # other side: judged inside the fitted range only
